@@ -3,6 +3,11 @@
 // return-type shape, header set, codec options) for the response direction, for the hprose codec pair of
 // rpc/core and the JSON-RPC codec pair of rpc/codec/jsonrpc. The codecs are driven directly (no transport);
 // the reference is the values that went in, compared through gen.Canon.
+//
+// Files: space.go (alphabets, shapes, header sets, names, errors, settings), run.go (one hprose case),
+// jrun.go (one JSON-RPC case), main.go (jobs, enumeration, aggregation, replay), repro/*.go.txt (standalone
+// demonstrations of the findings on the pinned tree).
+// Debugging aids: `c07 --dump` prints the value alphabets, `c07 --job <lane> <i1> <i2>` runs one job in-process.
 package main
 
 import (
@@ -133,7 +138,7 @@ func allCore(alpha []aval, l []int) bool {
 	return true
 }
 
-// settingsFor decides over which decoder settings a list is crossed: every list with the defaults; the
+// crossSettings decides over which decoder settings a list is crossed: every list with the defaults; the
 // other 119 combinations where some destination is an interface{} (lists of <= 2 values, in the thorough
 // tier also the lists of 3 quick-tier values), and for lists of <= 1 value in every shape so that the
 // header values (always interface{} destinations) meet every combination too.
